@@ -169,7 +169,7 @@ impl Prop for C02 {
         let query = QSpec { vars, distinct: !plain && r.chance(1, 3), body, order, limit: if order && r.chance(1, 2) { Some(1 + r.usize(6)) } else { None },
             from: if use_from { (0..(1 + r.usize(2))).map(|_| format!("http://e/g{}", r.below(3))).collect() } else { vec![] }, from_named: if use_from && r.chance(1, 2) { vec![format!("http://e/g{}", r.below(3))] } else { vec![] }, agg };
         let nvar = if tier == Tier::Quick { 8 + vr.usize(6) } else { 12 + vr.usize(12) };
-        let variants = (0..nvar).map(|i| Variant { perm_seed: if i % 3 == 2 { 0 } else { vr.next() | 1 }, stats: vr.below(4) as u8, plan_mode: if plain && i % 2 == 1 { 1 + vr.below(5) as u8 } else { 0 }, plan_seed: vr.next(), pool: *vr.pick(&[1, 2, 3, 4, 8, 16]), rayon_seed: vr.next(), hash_seed: vr.next() }).collect();
+        let variants = (0..nvar).map(|i| Variant { perm_seed: if i % 3 == 2 { 0 } else { vr.next() | 1 }, stats: vr.below(4) as u8, plan_mode: if plain && i % 2 == 1 { 1 + vr.below(5) as u8 } else { 0 }, plan_seed: vr.next(), pool: *vr.pick(&[1, 2, 3, 4, 8, 16, 16, 67, 128, 300]), rayon_seed: vr.next(), hash_seed: vr.next() }).collect();
         PlanCase { hash_seed: Rng::sub(seed, "hash").next(), quads, empty_graphs, stale_extra, stale_missing: r.usize(20), query, variants }
     }
     fn exec(&self, c: &PlanCase, ctx: &mut Ctx) -> Option<Violation> {
@@ -213,7 +213,11 @@ impl Prop for C02 {
                         let prefixes = HashMap::new();
                         let logical = build_logical_plan_from_group(&sel.pattern, &prefixes, dbr)?;
                         let dataset = DatasetView::from_database(dbr);
-                        let plan = Streamertail::with_cached_stats_and_dataset(stats2.clone(), dataset.clone()).find_best_plan(&logical);
+                        // in half of the rewritten variants the plan is the one the same optimizer object returns when asked a second
+                        // time (its memo table is warm then): that is one more plan the optimizer "happens to choose"
+                        let mut opt = Streamertail::with_cached_stats_and_dataset(stats2.clone(), dataset.clone());
+                        let first = opt.find_best_plan(&logical);
+                        let plan = if ps & 2 != 0 { opt.find_best_plan(&logical) } else { first };
                         let b0 = if need_base { let raw = ExecutionEngine::execute_with_ids_and_dataset(&plan, dbr, &dataset); Some(decode_rows(dbr, raw)) } else { None };
                         let mut pr = Rng::new(ps);
                         let p2 = rewrite(&plan, pm, &mut pr);
